@@ -281,6 +281,15 @@ def lrpv : P String := do
   let v := v.failIf (samp.any (fun (_, x) => decide (last.getD x 0 ≤ 0))) s!"{comp} sample_zero_prob"
   return v.render
 
+
+/-- `term <comp> <what> | <returned action>|no_return` : a call that must return (run in a child process with an alarm) -/
+def term : P String := do
+  let comp ← P.tok; let what ← P.tok; P.bar; let out ← P.tok; P.eof
+  let v : Verdict := { tag := "term" }
+  let v := v.failIf (out == "no_return") s!"{comp} {what}_does_not_return"
+  let v := v.failIf (out != "no_return" && out != "0") s!"{comp} {what}_out_of_range {out}"
+  return v.render
+
 def setNth {α} (l : List α) (i : Nat) (x : α) : List α := l.set i x
 
 def wolf : P String := do
@@ -535,6 +544,7 @@ def handle (toks : List String) : String :=
     | "shift" :: rest => P.run shift rest
     | "lrp" :: rest => P.run lrp rest
     | "lrpv" :: rest => P.run lrpv rest
+    | "term" :: rest => P.run term rest
     | "wolf" :: rest => P.run wolf rest
     | "pgaapp" :: rest => P.run pgaapp rest
     | "thompson" :: rest => P.run thompson rest
